@@ -169,6 +169,10 @@ func c19digests(rng *mrand.Rand) [][]byte {
 }
 
 // keygenAndCheck runs a complete key generation and checks consistency of the threshold key.
+// ecdsaKeygenTimeout: watchdog of an all-honest ECDSA key generation (20 s on an idle machine); below the parent's safety net of
+// the tier, so that a key generation that never completes is reported as such
+var ecdsaKeygenTimeout = 4 * time.Minute
+
 func keygenAndCheck(w *wiring, p *common.Part, label string) (map[uint16][]byte, []byte, bool) {
 	if err := w.fresh("keygen", w.ids, nil); err != nil {
 		p.Violate("keygen-failed/"+w.kind, label+": "+err.Error(), nil)
@@ -176,7 +180,7 @@ func keygenAndCheck(w *wiring, p *common.Part, label string) (map[uint16][]byte,
 	}
 	to := 60 * time.Second
 	if w.kind == "ecdsa" {
-		to = 8 * time.Minute
+		to = ecdsaKeygenTimeout
 	}
 	res := w.run(w.ids, false, nil, to)
 	for _, id := range w.ids {
@@ -269,7 +273,8 @@ func unitC19ecdsa(e common.Env, p *common.Part) {
 }
 
 func c19unit(e common.Env, p *common.Part, kind string, nts []nt, reps int) {
-	p.Rule = "complete key-generation and signing runs of the " + kind + " adapter wired directly with a recording sendMsg (every (bytes, isBroadcast, to) captured), several (n,t) and identifier sets (1..n, gaps, PRNG 16-bit): (a) every emitted message classified by every receiver: broadcast flag = tss-lib's routing flag, round != 0, no error, distinct broadcast messages of one sender and phase get distinct rounds; (b) digests of length 0,1,31,32,33,64 and with 1,2,4 leading zero bytes: every signer obtains a signature that an independent library (crypto/ed25519 resp. crypto/ecdsa) verifies for the requested digest under the threshold key, or an error; (c) one signer asks for a different digest than the others; (d) re-attribution: captured genuine messages delivered again under every other session member's identity before the genuine traffic, and by an outsider whose identifier lies between the members'; honest parties must end with consistent key material / verifying signatures or an error, never a non-verifying signature; outsider traffic must have no effect; (e) one adapter object per party serves the key generation and then three signing sessions among fewer parties (Init again on the same objects) while the parties that left re-send all signing traffic under their own identities: every signer obtains a verifying signature; distinct key = (adapter, n, t, ids, case); non-trivial always"
+	ecdsaKeygenTimeout = time.Duration(e.Pick(4, 8)) * time.Minute
+	p.Rule = "complete key-generation and signing runs of the " + kind + " adapter wired directly with a recording sendMsg (every (bytes, isBroadcast, to) captured), several (n,t) and identifier sets (1..n, gaps, PRNG 16-bit), the party list handed to Init in ascending order or (ECDSA, every second EdDSA configuration) in descending order in a slice the caller overwrites after Init returned: (a) every emitted message classified by every receiver: broadcast flag = tss-lib's routing flag, round != 0, no error, distinct broadcast messages of one sender and phase get distinct rounds; (b) digests of length 0,1,31,32,33,64 and with 1,2,4 leading zero bytes: every signer obtains a signature that an independent library (crypto/ed25519 resp. crypto/ecdsa) verifies for the requested digest under the threshold key, or an error; (c) one signer asks for a different digest than the others; (d) re-attribution: captured genuine messages delivered again under every other session member's identity before the genuine traffic, and by an outsider whose identifier lies between the members'; honest parties must end with consistent key material / verifying signatures or an error, never a non-verifying signature; outsider traffic must have no effect; (e) one adapter object per party serves the key generation and then three signing sessions among fewer parties (Init again on the same objects) while the parties that left re-send all signing traffic under their own identities: every signer obtains a verifying signature; distinct key = (adapter, n, t, ids, case); non-trivial always"
 	p.Assumptions = append(p.Assumptions, "in tss-lib v2.0.2 the wire bytes carry no embedded sender (ParseWireMessage stamps the caller-supplied id), so 'embedded sender != transport sender' cannot occur on the wire; what is decided is the consequence the clause protects: no message is ever credited to anyone but its transport sender (safety outcomes under re-attribution and outsider injection)")
 	idx := 0
 	for _, x := range nts {
@@ -283,6 +288,12 @@ func c19unit(e common.Env, p *common.Part, kind string, nts []nt, reps int) {
 			label := fmt.Sprintf("%s n=%d t=%d ids=%v", kind, x.n, x.t, ids)
 			p.Begin(label)
 			w := newWiring(kind, ids, x.t)
+			// the ECDSA configurations and every second EdDSA one: the party list is handed to Init in descending order, in a slice
+			// the caller overwrites afterwards (Init has no ordering contract and cannot keep the caller's slice)
+			w.hostileCaller = kind == "ecdsa" || idx%2 == 0
+			if w.hostileCaller {
+				p.Count("configurations_with_unsorted_reused_party_lists", 1)
+			}
 			shares, tpk, ok := keygenAndCheck(w, p, label)
 			p.Case(label+" keygen", true)
 			if !ok {
